@@ -167,9 +167,8 @@ def pred_c08(tr, story):
         if p["s"] != 0:
             bad.append("socket not released")
         if p["h"] != 0:
-            fin_pending = any(tid == "F" and not t.done() for t, tid in tr.tasks.items()) or i < len(steps) - 1
             # the helper may be assigned by the finish task between close and its next step; it must be gone at the end
-            if i == len(steps) - 1 and not any(tid == "F" and not t.done() for t, tid in tr.tasks.items()):
+            if i == len(steps) - 1 and tr.task_outcomes.get("F", ("x",))[0] != "pending":
                 bad.append("frame helper not released")
         if bad:
             v.append(("C08/resources", "closed connection still holds: " + ", ".join(bad) + f" (callback {i}, {label})", i))
@@ -269,7 +268,145 @@ def _transport_closing_before(steps, i):
     return any(l in ("eof",) or l.startswith("lost") for l, _, _ in steps[:i])
 
 
-PREDICATES = {"C05": pred_c05, "C07": pred_c07, "C08": pred_c08, "C12": pred_c12}
+
+# ----------------------------------------------------------------------------- C11
+def _pred_fn(p):
+    if p == "any":
+        return lambda ty, tag: True
+    kind, v = p.split("=")
+    v = int(v)
+    if kind == "is":
+        return lambda ty, tag: ty == v
+    if kind == "not":
+        return lambda ty, tag: ty != v
+    return lambda ty, tag: tag == v
+
+
+def call_results(tr):
+    """cid -> ('ok', [(ty, tag)]) | ('err', class) | ('cancelled',) | ('pending',) read from the real tasks at the end of the story."""
+    from vlib import simnet, conntrace
+    out = {}
+    for tid, r in tr.task_outcomes.items():
+        if not tid.startswith("C") or tid == "C?":
+            continue
+        cid = int(tid[1:])
+        if r[0] == "ok":
+            out[cid] = ("ok", [(simnet.msg_type_id(m), conntrace.msg_tag(m)) for m in r[1]])
+        elif r[0] == "err":
+            out[cid] = ("err", r[1])
+        else:
+            out[cid] = r
+    return out
+
+
+def pred_c11(tr, story):
+    v = []
+    steps = [(l, parse_proj(p), list(o)) for l, p, o in tr.steps if l != "silent"]
+    results = call_results(tr)
+    now = 0
+    calls = {}      # cid -> dict
+    next_cid = 0
+    # call ids are given in the order futures are created; follow the harness's numbering through the TC<cid>= events
+    for i, (label, p, obs) in enumerate(steps):
+        pj = steps[i - 1][1] if i else parse_proj("INIT,00,f=-,x=0,pp=0,ping=-,pong=-,sf=-,ff=-,h=0,s=0,w=0,os=1,H=")
+        if label.startswith("adv:"):
+            now = max(now, int(label[4:]))
+        if label.startswith("call:"):
+            _, send, types, ap, st, tmo = label.split(":")
+            # the cid of this call: a new handler c<cid> shows up in the projection, or the task finished at once
+            new = {w for ws in p["table"].values() for w in ws if w.startswith("c")} - {w for ws in pj["table"].values() for w in ws if w.startswith("c")}
+            done_now = [o for o in obs if o.startswith("TC")]
+            if new:
+                cid = int(sorted(new)[0][1:])
+                calls[cid] = dict(start=i, t0=now, types=[int(x) for x in types.split(",") if x != "-"], ap=_pred_fn(ap), st=_pred_fn(st),
+                                  tmo=int(tmo), got=[], state="pending", judged=pj["cs"] == "CONN" and pj["hc"] == 1, end=None)
+        # frames dispatched in this step
+        if label.startswith("data:") and pj["cs"] != "CLOSED":
+            closed_in_chunk = False
+            for it in label[5:].split(";"):
+                if it.startswith("bp."):
+                    closed_in_chunk = True
+                    break
+                _, ty, valid, tag, *_ = it.split(".")
+                ty, tag = int(ty), int(tag)
+                if not (1 <= ty <= N_REG):
+                    continue
+                if valid == "0":
+                    closed_in_chunk = True
+                    break
+                for cid, c in calls.items():
+                    if c["state"] == "pending" and ty in c["types"]:
+                        if c["ap"](ty, tag):
+                            c["got"].append((ty, tag))
+                        if c["st"](ty, tag):
+                            c["state"], c["end"] = "result", i
+                if ty == DISC_REQ and "disc" in pj["table"].get(DISC_REQ, []):
+                    closed_in_chunk = True
+                    break
+        if label.startswith("timer:c") and label[7:].isdigit():
+            cid = int(label[7:])
+            c = calls.get(cid)
+            if c and c["state"] == "pending":
+                c["state"], c["end"] = "timeout", i
+                if c["judged"] and now != c["t0"] + c["tmo"]:
+                    v.append(("C11/timeout-time", f"call {cid} timed out at {now} (1/1024 s), written at {c['t0']} with timeout {c['tmo']}", i))
+        if label.startswith("cancel:C") and label[8:].isdigit():
+            cid = int(label[8:])
+            c = calls.get(cid)
+            if c and not any(o.startswith(f"TC{cid}=") for _, _, ob in steps[:i + 1] for o in ob):
+                c["state"], c["end"] = "cancelled", i
+        if p["cs"] == "CLOSED" and pj["cs"] != "CLOSED":
+            for c in calls.values():
+                if c["state"] == "pending":
+                    c["state"], c["end"] = "closed", i
+        # a call whose future is done must be finished by the next quiescent point; leftovers
+    for cid, c in calls.items():
+        if not c["judged"]:
+            continue
+        r = results.get(cid)
+        if r is None:
+            continue
+        exp = c["state"]
+        if exp == "result":
+            if r != ("ok", c["got"]):
+                v.append(("C11/result", f"call {cid} (types {c['types']}) returned {r}, expected the accepted messages up to the first stop message: {c['got']}", c["end"]))
+        elif exp == "timeout":
+            if r != ("err", "L.Timeout"):
+                v.append(("C11/timeout-class", f"call {cid} ended with {r} after its timeout fired, expected TimeoutAPIError", c["end"]))
+        elif exp == "cancelled":
+            if r[0] != "cancelled":
+                v.append(("C11/cancel", f"call {cid} was cancelled by its caller but ended with {r}", c["end"]))
+        elif exp == "closed":
+            if r[0] != "err" or not r[1].startswith("L."):
+                v.append(("C11/close-error", f"call {cid} was pending when the connection closed and ended with {r}, expected the connection's error", c["end"]))
+        elif exp == "pending" and r[0] != "pending":
+            v.append(("C11/spurious-completion", f"call {cid} completed with {r} although no stop message, timeout, cancel or close occurred", len(steps) - 1))
+    # leftovers at quiescent points: handlers of finished calls, request timers
+    done_at = {}
+    for i, (label, p, obs) in enumerate(tr.steps):
+        for o in obs:
+            if o.startswith("TC") and "=" in o and o[2:o.index("=")].isdigit():
+                done_at[int(o[2:o.index("=")])] = i
+    for at, closed, timers, pending in tr.audits:
+        if at == 0:
+            continue
+        p = parse_proj(tr.steps[at - 1][1])
+        live = {int(w[1:]) for ws in p["table"].values() for w in ws if w.startswith("c") and w[1:].isdigit()}
+        stale = [cid for cid in live if cid in done_at and done_at[cid] < at]
+        if stale:
+            v.append(("C11/handler-left", f"handler of finished call(s) {stale} still registered at a quiescent point", at - 1))
+            break
+        n_to = sum(1 for t in timers if t.endswith("handle_timeout"))
+        allowed = sum(1 for x in pending if x.startswith("C")) + (1 if "F" in pending else 0) + (1 if "D" in pending else 0)
+        if n_to > allowed:
+            v.append(("C11/timer-left", f"{n_to} request timer(s) armed with only {allowed} call(s) pending at a quiescent point", at - 1))
+            break
+        if p["w"] > allowed:
+            v.append(("C11/waiter-left", f"{p['w']} pending waiter(s) registered with only {allowed} call(s) pending", at - 1))
+            break
+    return v
+
+PREDICATES = {"C11": pred_c11, "C05": pred_c05, "C07": pred_c07, "C08": pred_c08, "C12": pred_c12}
 
 
 # ----------------------------------------------------------------------------- deterministic window stories
@@ -317,6 +454,23 @@ def window_stories():
         story(est + [CALLS[0], ("drain",), ("data", [H(10)]), cause])
         story(est + [("disc",), ("drain",), ("data", [H(6)]), cause])
         story(est + [CALLS[0], ("drain",), ("hop", 0, ("data", [H(10)])), ("hop", 0, cause)])
+
+    # request/response windows: several calls, response with timeout / cancel / close in one turn, late extra messages
+    GR, GE, LD, LS = 74, 82, 19, 16
+    story(est + [CALLS[1], CALLS[2], ("drain",), ("data", [H(GR, tag=9), H(GR, tag=4), H(GE, tag=3), H(GR, tag=3)])])
+    story(est + [CALLS[3], ("drain",), ("data", [H(LS, tag=1), H(LS, tag=2), H(LD), H(LS, tag=3)]), ("data", [H(LS, tag=4)])])
+    story(est + [CALLS[3], CALLS[3], ("drain",), ("data", [H(LS, tag=1), H(LD), H(LD), H(LS, tag=3)])])
+    story(est + [CALLS[0], ("data", [H(10)])])
+    story(est + [CALLS[0], ("hop", 0, ("data", [H(10), H(10)]))])
+    for hops in (0, 1, 2):
+        story(est + [CALLS[1], ("drain",), ("hop", hops, ("data", [H(GR, tag=3)])), ("hop", hops, ("cancel", "C1"))])
+        story(est + [CALLS[1], ("drain",), ("hop", hops, ("cancel", "C1")), ("hop", hops, ("data", [H(GR, tag=3)]))])
+        story(est + [CALLS[1], CALLS[2], ("drain",), ("hop", hops, ("data", [H(GR, tag=3)])), ("hop", hops, ("lost", "R.Reset"))])
+        story(est + [CALLS[1], CALLS[2], ("drain",), ("hop", hops, ("eof",)), ("hop", hops, ("data", [H(GR, tag=3)]))])
+    story(est + [CALLS[1], ("drain",), ("adv_next",), ("drain",), ("adv_next",), ("drain",), ("data", [H(GR, tag=3)])], keepalive=40960)
+    story(est + [CALLS[1], CALLS[2], ("drain",), ("cancel", "C1"), ("drain",), ("data", [H(GR, tag=4)]), ("force",)])
+    story(est + [CALLS[1], CALLS[2], ("drain",), ("force",), ("drain",)])
+    story(est + [CALLS[1], CALLS[2], ("drain",), ("data", [H(SWITCH_STATE, valid=0)]), ("drain",)])
     # keepalive ping that discovers a dead socket; peer that only talks without pong
     story(est + [("wfail", 1), ("adv_next",), ("drain",), ("adv_next",), ("drain",), ("adv_next",)], keepalive=256)
     story(est + [("adv_next",), ("drain",), ("data", [H(SWITCH_STATE)]), ("adv_next",), ("drain",), ("data", [H(PING_REQ)]), ("adv_next",), ("drain",)] * 3, keepalive=256)
